@@ -129,6 +129,47 @@ func flipSomeColours(r *rand.Rand, p ref.Pos) (ref.Pos, bool) {
 	return p, false
 }
 
+func ifNotContains(line, s string) string {
+	if strings.Contains(line, s) {
+		return ""
+	}
+	return s
+}
+
+func ifNoMoves(g lineGame, s string) string {
+	if len(g.moves) == 0 {
+		return s
+	}
+	return ""
+}
+
+// legalOr returns the text of a random legal move (or a harmless token if there is none).
+func legalOr(p ref.Pos, r *rand.Rand) string {
+	if ms := p.LegalMoves(); len(ms) > 0 {
+		return ms[r.Intn(len(ms))].String()
+	}
+	return "e2e4"
+}
+
+// pseudoIllegal returns the text of a move the rules forbid only because of check (a pinned piece leaving its
+// line, the king stepping onto an attacked square, castling out of or through check), if the position has one.
+func pseudoIllegal(p ref.Pos) string {
+	pos, err := adapt.Position(p)
+	if err != nil {
+		return ""
+	}
+	legal := map[string]bool{}
+	for _, m := range p.LegalMoves() {
+		legal[m.String()] = true
+	}
+	for _, bm := range pos.PseudoLegalMoves(adapt.BColor(p.White)) {
+		if s := adapt.TupleOfB(bm).String(); !legal[s] {
+			return s
+		}
+	}
+	return ""
+}
+
 // c10Tournament: sessions as a match GUI drives them: a large hash table set once, ucinewgame (often twice)
 // before every game.
 var c10Tournament bool
@@ -172,7 +213,7 @@ func c10Session(c *fw.Ctx, r *rand.Rand, idx int) {
 	}
 	n := 2 + r.Intn(10)
 	for step := 0; step < n; step++ {
-		kind := r.Intn(14)
+		kind := r.Intn(15)
 		if tournament && r.Intn(3) == 0 {
 			kind = 8
 		}
@@ -275,6 +316,71 @@ func c10Session(c *fw.Ctx, r *rand.Rand, idx int) {
 				}
 			}
 			line, name = next.cmd(false), "case-flip"
+		case 13: // a position line the driver has to reject, then a well-formed one again: the well-formed one counts
+			g := cur.game()
+			var bad string
+			badFEN := false
+			switch bk := r.Intn(5); bk {
+			case 0: // a move that is not legal (not even pseudo-legal), at the end of the current line
+				bad = cur.cmd(startposOK) + ifNoMoves(cur, " moves") + " " + []string{"e2e5", "a1a1", "h7h9", "zzzz", "e7e8k"}[r.Intn(5)]
+			case 1: // a pseudo-legal but illegal move (king into check, pinned piece, castling through check) if there is one
+				if s := pseudoIllegal(g.Cur); s != "" {
+					bad = cur.cmd(startposOK) + ifNoMoves(cur, " moves") + " " + s
+				} else {
+					bad = cur.cmd(startposOK) + ifNoMoves(cur, " moves") + " e1e1"
+				}
+			case 2: // good moves, a bad one, more moves
+				bad = cur.cmd(startposOK) + ifNoMoves(cur, " moves") + " " + legalOr(g.Cur, r) + " x9x9 e2e4"
+			case 3: // a FEN that does not decode
+				badFEN = true
+				bad = "position fen " + []string{"8/8/8/8/8/8/8/9 w - - 0 1", "rnbqkbnr/pppppppp/8/8/8/8/PPPPPPPP/RNBQKBN w KQkq - 0 1", "4k3/8/8/8/8/8/8/4K3 x - - 0 1", "4k3/8/8/8/8/8/8/4K3 w - - zero 1"}[r.Intn(4)]
+			default: // ... followed by moves that would be legal in the game still on the board
+				badFEN = true
+				bad = "position fen 8/8/8/8/8/8/8/9 w - - 0 1 moves " + legalOr(g.Cur, r)
+			}
+			s.send(bad)
+			if _, ok := s.sync(); !ok {
+				c.Violate("position:no-readyok", "isready unanswered after %q: %s\n%s", bad, what(), stacks())
+				s.shutdown(true)
+				return
+			}
+			// a line whose FEN does not decode sets nothing up: the game of the last accepted command stays
+			if badFEN && !compareEngine(c, s, cur, fmt.Sprintf("after the rejected line %q: %s", bad, what())) {
+				s.shutdown(true)
+				return
+			}
+			if r.Intn(2) == 0 { // the rejected line once more, verbatim or extended (a GUI re-sending)
+				again := bad + []string{"", ifNotContains(bad, " moves") + " e2e4", ifNotContains(bad, " moves") + " " + legalOr(g.Cur, r)}[r.Intn(3)]
+				s.send(again)
+				s.sync()
+				if badFEN && !compareEngine(c, s, cur, fmt.Sprintf("after the rejected lines %q and %q: %s", bad, again, what())) {
+					s.shutdown(true)
+					return
+				}
+			}
+			c.Count("cmd_rejected-line", 1)
+			// what the engine holds now is not specified; the next well-formed command is
+			switch r.Intn(4) {
+			case 0:
+				line, name = cur.cmd(startposOK), "repeat-after-rejected"
+			case 1:
+				if len(cur.moves) > 0 {
+					next = lineGame{cur.start, append([]ref.Move{}, cur.moves[:len(cur.moves)-1]...)}
+				}
+				line, name = next.cmd(startposOK), "truncation-after-rejected"
+			default:
+				next = lineGame{cur.start, append([]ref.Move{}, cur.moves...)}
+				for k := 0; k < 1+r.Intn(2); k++ {
+					ms := g.Cur.LegalMoves()
+					if len(ms) == 0 {
+						break
+					}
+					m := ms[r.Intn(len(ms))]
+					g.Push(m)
+					next.moves = append(next.moves, m)
+				}
+				line, name = next.cmd(startposOK), "extension-after-rejected"
+			}
 		case 12: // an option set between two position commands is not a position command: the game stays
 			opt := []string{
 				fmt.Sprintf("setoption name Hash value %d", []int{0, 1, 2, 4, 8, 256}[r.Intn(6)]),
@@ -466,7 +572,7 @@ func init() {
 		Level:       "exploration",
 		Race:        true,
 		Technique:   "runtime reference-model monitor: after every position/ucinewgame command (synchronised by isready/readyok) the engine's game is compared with the game the command describes, built from scratch, and probed for its future repetition behaviour",
-		Rule:        "sessions of 3-13 commands: fresh startpos/FEN lines with 0-40 moves, extension by 1-4 moves, verbatim repeat, odd white space, truncation, different last move, respelling startpos<->fen, ucinewgame, FEN whose clock digits extend the previous FEN, searches and option changes (Hash, Noise, Depth, OwnBook) in between; after each command: Engine.Position() vs oracle FEN and full board snapshot (position, side, hash, clocks, ply, castled flags, last moves, result) vs a board set up from scratch; at the end the line is extended by reversible shuffles until the oracle counts three occurrences: the engine's game must report the draw at that ply and not earlier; sessions1p: the same sessions with GOMAXPROCS(1); stdin: an engine wired like cmd/*/main.go (ReadStdinLines -> driver) with standard input replaced by a pipe, position lines of 30-1500 plies (up to ~8 KiB), LF/CRLF, last line without newline; distinct = distinct session transcripts",
+		Rule:        "sessions of 3-13 commands: fresh startpos/FEN lines with 0-40 moves, extension by 1-4 moves, verbatim repeat, odd white space, truncation, different last move, respelling startpos<->fen, ucinewgame, FEN whose clock digits extend the previous FEN, searches, option changes (Hash, Noise, Depth, OwnBook) and rejected lines (illegal / pseudo-legal-illegal / garbage move, undecodable FEN with or without moves, re-sent) in between - the next well-formed line (repeat, truncation, extension of the last accepted one) must count; after each command: Engine.Position() vs oracle FEN and full board snapshot (position, side, hash, clocks, ply, castled flags, last moves, result) vs a board set up from scratch; at the end the line is extended by reversible shuffles until the oracle counts three occurrences: the engine's game must report the draw at that ply and not earlier; sessions1p: the same sessions with GOMAXPROCS(1); stdin: an engine wired like cmd/*/main.go (ReadStdinLines -> driver) with standard input replaced by a pipe, position lines of 30-1500 plies (up to ~8 KiB), LF/CRLF, last line without newline; distinct = distinct session transcripts",
 		Assumptions: []string{"commands are well-formed position lines (malformed ones are C16's subject)"},
 		Setup:       validateOracle,
 		Timeout:     minutes(15, 120),
@@ -476,7 +582,7 @@ func init() {
 			return mkCases(l, "stdin", 8, seed, pick(tier, 3, 60))
 		},
 		Floors: func(string) map[string]int64 {
-			return map[string]int64{"sessions": 200, "state_checks": 1500, "cmd_extension": 100, "cmd_repeat": 50, "cmd_whitespace": 50, "cmd_truncation": 50, "cmd_fen-prefix-trap": 50, "cmd_after-ucinewgame": 50, "cmd_fen-of-current": 50, "cmd_case-flip": 30, "cmd_setoption-in-between": 50, "repetition_probes_reached": 100, "stdin_lines": 40, "settled_rechecks": 100, "stdin_lines_over_4k": 10}
+			return map[string]int64{"sessions": 200, "state_checks": 1500, "cmd_extension": 100, "cmd_repeat": 50, "cmd_whitespace": 50, "cmd_truncation": 50, "cmd_fen-prefix-trap": 50, "cmd_after-ucinewgame": 50, "cmd_fen-of-current": 50, "cmd_case-flip": 30, "cmd_setoption-in-between": 50, "cmd_rejected-line": 50, "cmd_repeat-after-rejected": 10, "cmd_extension-after-rejected": 20, "repetition_probes_reached": 100, "stdin_lines": 40, "settled_rechecks": 100, "stdin_lines_over_4k": 10}
 		},
 		Run: func(c *fw.Ctx, cs fw.Case) {
 			r := cs.Rand()
